@@ -41,8 +41,8 @@ PLANS["C11"] = {
     "thorough": [J("reqresp", "p=3,f=2,s=2,sel=1", 900), J("c11-idwrap", "thorough", 120, test="TestE3", shards=1)],
 }
 PLANS["C12"] = {
-    "quick": [J("shutdown1", "p=1,f=1,s=1", 60), J("shutdown1lazy", "p=1,f=1", 40), J("shutdownbig", "p=1,s=2", 40), J("shutdown2", "p=1,f=1,sel=1", 60), J("shutdown4", "p=1,f=1", 40), J("shutdown5", "p=1,f=1,s=1", 40), J("shutdown6", "p=1,f=2", 40)],
-    "thorough": [J("shutdown1", "p=2,f=1,s=2", 300), J("shutdown1lazy", "p=2,f=1,s=1", 300), J("shutdownbig", "p=2,s=2,f=1", 300), J("shutdown2", "p=2,f=1,s=2,sel=1", 300), J("shutdown3", "p=2,f=1,s=2,sel=1", 300), J("shutdown4", "p=2,f=1,s=2,sel=1", 300), J("shutdown5", "p=2,f=1,s=2,sel=1", 300), J("shutdown6", "p=2,f=2,s=1", 300)],
+    "quick": [J("shutdown1", "p=1,f=1,s=1", 60), J("shutdown1", "f=2,s=1", 40), J("shutdown1lazy", "p=1,f=1", 40), J("shutdownbig", "p=1,s=2", 40), J("shutdown2", "p=1,f=1,sel=1", 60), J("shutdown4", "p=1,f=1", 40), J("shutdown5", "p=1,f=1,s=1", 40), J("shutdown6", "p=1,f=2", 40)],
+    "thorough": [J("shutdown1", "p=2,f=1,s=2", 300), J("shutdown1", "p=1,f=2,s=1", 300), J("shutdown1lazy", "p=2,f=1,s=1", 300), J("shutdownbig", "p=2,s=2,f=1", 300), J("shutdown2", "p=2,f=1,s=2,sel=1", 300), J("shutdown3", "p=2,f=1,s=2,sel=1", 300), J("shutdown4", "p=2,f=1,s=2,sel=1", 300), J("shutdown5", "p=2,f=1,s=2,sel=1", 300), J("shutdown6", "p=2,f=2,s=1", 300)],
 }
 
 PLANS["C04"] = {
@@ -79,7 +79,7 @@ PLANS["C09"] = {
 
 PLANS["C15"] = {
     "quick": [J("c15-codec", "quick", 120, test="TestE3"), J("c15-denied", "quick", 60, test="TestE3", shards=1), J("c15-live", "quick", 60, test="TestE3", shards=8), J("puborder", "p=1,f=1", 60)],
-    "thorough": [J("c15-codec", "thorough", 900, test="TestE3"), J("c15-denied", "thorough", 60, test="TestE3", shards=1), J("c15-live", "thorough", 600, test="TestE3"), J("puborder", "p=2,f=1,s=1", 600), J("restart", "c=1,p=1", 300)],
+    "thorough": [J("c15-codec", "thorough", 900, test="TestE3"), J("c15-denied", "thorough", 60, test="TestE3", shards=1), J("c15-live", "thorough", 600, test="TestE3", shards=8), J("puborder", "p=2,f=1,s=1", 600), J("restart", "c=1,p=1", 300)],
 }
 PLANS["C20"] = {
     "quick": [J("c20-doubles", "quick", 120, test="TestE3"), J("race-doubles", "free-running, -race", 120, test="TestE3", shards=1, race=True)],
